@@ -254,10 +254,15 @@ func lastPos(b *ssa.BasicBlock) token.Pos {
 // MustPassPerIteration: every path from the start of an iteration back to the
 // header passes an instruction satisfying pred. Returns a description of a
 // counterexample ("" if none).
-func (l *Loop) MustPassPerIteration(p *Program, pred func(ssa.Instruction) bool) string {
+func (l *Loop) MustPassPerIteration(p *Program, pred func(ssa.Instruction) bool, skipOK ...func(from *ssa.BasicBlock, si int) bool) string {
 	for _, entry := range l.bodyEntries() {
 		q := &PathQuery{Fn: l.Fn, Barrier: pred}
 		q.EdgeBarrier = func(from *ssa.BasicBlock, si int) bool {
+			for _, s := range skipOK {
+				if s(from, si) {
+					return true
+				}
+			}
 			return !l.Blocks[from.Succs[si]]
 		}
 		q.LoopExit = func(from, to *ssa.BasicBlock) bool { return to == l.Header }
